@@ -35,6 +35,8 @@ type Frame struct {
 	parent *Frame
 	xsigs  map[string]FunSig
 	xsyms  map[string]string
+	prevSt    map[*ssa.BasicBlock]*State           // state at the loop header of the current iteration (loop step clauses)
+	prevNames map[*ssa.BasicBlock]map[string]Value
 }
 
 type deferred struct {
